@@ -296,7 +296,7 @@ contract('loader.ConfigLoader.startSection',
                           "isa(self.schema._types.items[x], 'info.SectionType'), "
                           "invariant_of(cast(self.schema._types.items[x], 'info.SectionType')) and "
                           "self.schema._types.items[x].name is not None))", label='every-type-of-the-schema-is-well-formed')],
-         modifies=['parent.optionbag.sectitems'],
+         modifies=['parent.optionbag.sectitems'], inst=['type_.lower()'],
          ensures=[Clause("type_.lower() in self.schema._types.items and "
                          "not isa(self.schema._types.items[type_.lower()], 'info.AbstractType') and "
                          "result.type == self.schema._types.items[type_.lower()]", carries='C01,C12',
